@@ -63,8 +63,30 @@ impl Prop for C09 {
                 let spacer = *r.pick(&[&"<tr><td></td><td></td></tr>", &"<tr><td> </td><td>\n</td></tr>", &"<tr></tr>", &"<tr><td></td></tr>"]);
                 html.push_str(&format!("<table><tr><td>qra</td><td>qrb</td></tr>{spacer}<tr><td>qrc</td><td><em>qrd</em></td></tr></table><p>qre <em>qrf</em></p>"));
             }
+            // a <pre> element in pre-wrap mode (CSS on the element) holding words, runs of blanks and inline annotating
+            // elements: whether the text after a blank that overflowed the line starts with Preformat(true) or (false)
+            // depends on `pre_wrapped` (added after a mutation of that flag in the pre-wrap branch of add_text survived)
+            let prewrap = !tables && r.p(8);
+            if prewrap {
+                let mut s = String::from(*r.pick(&[&"<pre style=\"white-space:pre-wrap\">", &"<pre style=\"white-space: pre-wrap\">", &"<pre><span style=\"white-space:pre-wrap\">"]));
+                for i in 0..2 + r.b(7) {
+                    let w = format!("qp{}{}", (b'a' + i as u8) as char, "x".repeat(r.u(4)));
+                    match r.b(5) {
+                        0 => s.push_str(&format!("<em>{w}</em>")),
+                        1 => s.push_str(&format!("<b>{w}</b>")),
+                        2 => s.push_str(&format!("<a href=\"/{i}\">{w}</a>")),
+                        _ => s.push_str(&w),
+                    }
+                    s.push_str(*r.pick(&[&" ", &" ", &"  ", &"   ", &"\n", &" \n", &""]));
+                }
+                s.push_str("</pre><p>qzz <em>qzy</em></p>");
+                html = s;
+            }
             for _ in 0..(if tier == Tier::Quick { 2 } else { 5 }) {
                 let mut cfg = Cfg::rich();
+                if prewrap {
+                    cfg.use_doc_css = true;
+                }
                 cfg.raw = tables && r.p(70);
                 cfg.footnotes = r.p(20);
                 cfg.pad = r.p(10);
@@ -72,8 +94,8 @@ impl Prop for C09 {
                 if r.p(30) {
                     cfg.user_css = Some("em{color:#010203} li{color:#040506} td{background-color:#070809} table{color:#0a0b0c} h2{color:#0d0e0f} tr{background-color:#101112}".into());
                 }
-                let w = if r.p(40) { 1 + r.u(16) } else { 1 + r.u(100) };
-                v.push(case(html.clone(), cfg, w, if tables { "tables" } else { "blocks" }));
+                let w = if r.p(40) || prewrap { 1 + r.u(16) } else { 1 + r.u(100) };
+                v.push(case(html.clone(), cfg, w, if prewrap { "pre-wrap" } else if tables { "tables" } else { "blocks" }));
             }
         }
         v
